@@ -53,13 +53,22 @@ def source_hash(repo=REPO):
     return h.hexdigest()
 
 
+def driver_hash():
+    """The facts format is part of the cache key: a changed driver invalidates cached facts."""
+    h = hashlib.sha256()
+    with open(os.path.join(VERIF, "driver", "src", "main.rs"), "rb") as f:
+        h.update(f.read())
+    return h.hexdigest()[:16]
+
+
 def facts_dir(repo=REPO):
     tag = hashlib.sha256(os.path.abspath(repo).encode()).hexdigest()[:10]
     return os.path.join(CACHE, "facts-" + tag)
 
 
 def ensure_driver():
-    if not os.path.exists(DRIVER):
+    src = os.path.join(VERIF, "driver", "src", "main.rs")
+    if not os.path.exists(DRIVER) or os.path.getmtime(DRIVER) < os.path.getmtime(src):
         env = dict(os.environ, CARGO_NET_OFFLINE="true")
         r = subprocess.run(
             ["cargo", "build", "--release", "--offline"],
@@ -77,7 +86,7 @@ def ensure_facts(repo=REPO, verbose=True):
     """Return (facts_dir, info). Re-extracts when the tree changed. Serialised by flock."""
     os.makedirs(CACHE, exist_ok=True)
     fd = facts_dir(repo)
-    want = source_hash(repo)
+    want = source_hash(repo) + "+" + driver_hash()
     # one lock per analysed tree (cargo serialises concurrent users of the shared target dir itself)
     lock_path = fd + ".lock"
     with open(lock_path, "w") as lock:
